@@ -28,8 +28,7 @@ CONFIG = {
     'rule': _COMMON_RULE,
     'assumptions': _ASSUME,
     'trusted_base': _TRUST,
-    'partial': ['C07_progress_statement (termination of every call: only deadlock freedom in every reachable state is '
-                'proved, C07_deadlock_free; the well-founded progress measure is not)'],
+    'partial': [],
 }
 
 MANIFEST = {
@@ -38,13 +37,16 @@ MANIFEST = {
             'of consumer threads, spurious wake-ups, arbitrary source script. Theorems: delivered ++ queued ++ in-flight = '
             'produced (order, exactly once), Next returns false only after the end with everything delivered, every cell in '
             'exactly one place (never lent twice, never handed to the producer while lent), allocations <= max_capacity + max '
-            'simultaneously lent, no CHECK fires, no undefined pop, deadlock freedom. Wait predicates and notify conditions are '
+            'simultaneously lent, no CHECK fires, no undefined pop, deadlock freedom, and termination: a lexicographic '
+            'five-component measure decreases with every non-spurious transition of the calls in progress, so every such '
+            'execution is finite and ends with every started call returned. Wait predicates and notify conditions are '
             're-extracted from threadediter.h on every run; the model is replayed step for step against the real code under a '
             'controlled scheduler; independent trace oracles.',
     'design_ref': 'DESIGN.md section 7 C07, sections 2 (Concurrency) and 3.3',
     'note': 'Trusted: Lean kernel, translator, vsched.h semantics, correspondence on explored schedules only, control flow '
-            'hand-modelled, sequential consistency. Liveness is proved as deadlock freedom in every reachable state; the '
-            'well-founded progress argument (every call returns) is stated, not proved.',
+            'hand-modelled, sequential consistency. Liveness = deadlock freedom in every reachable state + well-foundedness of the '
+            'progress relation (spurious wake-ups and the start of further calls are not progress events: a schedule that '
+            'only ever wakes threads spuriously, or a client that keeps starting calls, is outside the claim).',
     'technique': 'Lean 4 proof (inductive invariants of a transition system, counter abstraction) + source-to-Lean translator + '
                  'controlled-scheduler differential correspondence',
 }
